@@ -45,6 +45,9 @@ def check (sc : Driver.Script) : Driver.Result :=
         (none, { res with modelDiff := res.modelDiff <|> some (i, s!"impl=[{showObs ob}] model=[{showObs mo}]") })
       else
         (some b', { res with tags := (tagsOf b b' op ob).foldl Driver.addTag res.tags })
-  ) (fun _ => none)
+  ) (fun m toks => match toks with
+      | ["defer"] => none
+      | ["setmax", n] => m.map fun b => { b with max := (nat? n).getD b.max }
+      | _ => m)
 
 end Driver.WsStream
